@@ -119,7 +119,9 @@ def run_C04(tier, seed):
     # TV-1: at every challenge of every prover and verifier run, everything that precedes it has been absorbed (token mode)
     sc2, _ = stages.pick_scenarios("alter", tier, seed, verifies, 150 if q else 1500, prop="C04")
     sc3, _ = stages.pick_scenarios("complete", tier, seed, lambda s: honest(s) and nm_of(s) <= 128, 100 if q else 1000, prop="C04")
-    res.append(stages.trace_stage("C04", "dep-verify", sc2 + sc3, seed, module="TraceVerify", consts=TV_TOKEN, calls="verify", arith=False, per_file=40))
+    # batches whose members live in different contexts, in every mode (each proof's challenges come from ITS transcript)
+    sc4, _ = stages.pick_scenarios("recover", tier, seed, lambda s: len(s["sc"]["members"]) >= 2 and len({m["label"] for m in s["sc"]["members"]}) >= 2, 60 if q else 600, prop="C04")
+    res.append(stages.trace_stage("C04", "dep-verify", sc2 + sc3 + sc4, seed, module="TraceVerify", consts=TV_TOKEN, calls="verify", arith=False, per_file=40))
     res.append(stages.trace_stage("C04", "dep-prove", sc3, seed, module="TraceProve", consts={"Strict": "FALSE", "CheckArith": "FALSE", "CrossFresh": "FALSE"}, calls="prove", arith=False, per_file=40))
     # RP: honest proofs re-verified under a perturbed context are rejected
     res.append(stages.api_stage("C04", "bind", tier, seed))
@@ -273,6 +275,11 @@ def run_C09(tier, seed):
     sv, _ = stages.pick_scenarios("recover", tier, seed, lambda s: s["expect"]["verify"] == "ok" and s["sc"]["mode"] == "RecoverAndVerify" and nm_of(s) <= 16
                                   and any(m["v"]["seed"] != 0 for m in s["sc"]["members"]), 14 if q else 120, prop="C09")
     res.append(stages.trace_stage("C09", "recovery-equation", sv, seed, module="TraceVerify", calls="verify"))
+    # masks stay aligned and exact beyond the chunk limit
+    big = stages.api_stage("C09", "batch", tier, seed, groups=("rist",), scale="2:256", scale_min=0, limit=40 if q else 400,
+                           filter_fn=lambda s: s["sc"]["mode"] == "RecoverAndVerify" and s["expect"]["verify"] == "ok" and "exact" in s["expect"]["masks"])
+    big.name = "api:batch@256"
+    res.append(big)
     return res
 
 
